@@ -304,7 +304,8 @@ PROPS["C14"] = Prop(
     "type-function reads attach the object read from as the source (V-expr). Provenance is preserved by every copy site under contract: declaration and "
     "assignment store the value with its source (V-name), list items, arguments and return values are passed on unchanged (V-items, V-call, V-ctl).",
     vunits=[_vu("call", ["eval::eval_call"]), _vu("expr", ["eval::eval_expr"]), _vu("items", ["eval::eval_list_items"]),
-            _vu("scoped", ["eval::eval_stmts"]), _vu("name_bind", ["bind::bind_next_name"]), _vu("ctl", ["eval::eval_stmt"])],
+            _vu("scoped", ["eval::eval_stmts"]), _vu("name_bind", ["bind::bind_next_name"]), _vu("ctl", ["eval::eval_stmt"]),
+            _vu("bind_next", ["bind::bind_next", "bind::binary_operation_assign", "scope::set"])],
     assumptions=[
         "the property quantifies over ROUTES a function value takes through the heap; what is proved is that each route step under contract preserves "
         "the (value, source) pair - the composition over a whole history is an argument over these contracts, not a machine-checked theorem",
